@@ -19,6 +19,7 @@ type SolveResult struct {
 	Model   map[string]string
 	Raw     string
 	All     map[string]string // per-solver status (thorough cross-check)
+	Relaxed bool              // Model comes from the relaxed query
 }
 
 type solverSpec struct {
@@ -35,7 +36,13 @@ var solvers = []solverSpec{
 }
 
 // Query renders the SMT query of an obligation.
-func (o *Obligation) Query(seed int) string {
+func (o *Obligation) Query(seed int) string { return o.query(seed, false) }
+
+// RelaxedQuery drops the quantified loop-frame facts: a weaker hypothesis set, used only to obtain a
+// candidate counterexample when the full query comes back unknown (the model must then replay).
+func (o *Obligation) RelaxedQuery(seed int) string { return o.query(seed, true) }
+
+func (o *Obligation) query(seed int, relaxed bool) string {
 	var b strings.Builder
 	b.WriteString("(set-option :produce-models true)\n")
 	if seed != 0 {
@@ -55,7 +62,7 @@ func (o *Obligation) Query(seed int) string {
 		b.WriteByte('\n')
 	}
 	for _, e := range o.Epilogue {
-		if o.ExpectSat && strings.Contains(e, "(forall ") {
+		if (o.ExpectSat || relaxed) && strings.Contains(e, "(forall ") {
 			continue // reachability witnesses do not need the loop frames
 		}
 		b.WriteString(e)
